@@ -349,7 +349,10 @@ func buildField(ww *conversionVisitor, node sourcewalk.FieldNode) (*descriptorpb
 				ExclusiveMinimum: st.Date.Rules.ExclusiveMinimum,
 				ExclusiveMaximum: st.Date.Rules.ExclusiveMaximum,
 			}
-			proto.SetExtension(desc.Options, ext_j5pb.E_Field, opts)
+			ww.file.ensureImport(j5ExtImport)
+			proto.SetExtension(desc.Options, ext_j5pb.E_Field, &ext_j5pb.FieldOptions{
+				Type: &ext_j5pb.FieldOptions_Date{Date: opts},
+			})
 		}
 
 		if st.Date.ListRules != nil {
@@ -376,7 +379,10 @@ func buildField(ww *conversionVisitor, node sourcewalk.FieldNode) (*descriptorpb
 				ExclusiveMinimum: st.Decimal.Rules.ExclusiveMinimum,
 				ExclusiveMaximum: st.Decimal.Rules.ExclusiveMaximum,
 			}
-			proto.SetExtension(desc.Options, ext_j5pb.E_Field, opts)
+			ww.file.ensureImport(j5ExtImport)
+			proto.SetExtension(desc.Options, ext_j5pb.E_Field, &ext_j5pb.FieldOptions{
+				Type: &ext_j5pb.FieldOptions_Decimal{Decimal: opts},
+			})
 		}
 
 		if st.Decimal.ListRules != nil {
